@@ -35,6 +35,8 @@ for n in names:
             print(n, c, 'exit', p.returncode, ' '.join(sigs)[:160], flush=True)
     finally:
         sh('git', '-C', '/repo', 'checkout', '--', '.')
+        # files a patch added are untracked: remove them too (source directories only)
+        sh('git', '-C', '/repo', 'clean', '-fdq', '--', 'rscel/src', 'rscel-macro/src', 'extensions')
     meta['results'] = results
     meta['results_at_repo_commit'] = head
     meta['detected_by'] = [c for c, v in results.items() if v['exit'] == 1]
